@@ -76,6 +76,24 @@ def install_poison_division(ex):
     ex.divide = divide
 
 
+def install_sqrt(ex, var_filter):
+    """sqrt with the definedness goal decided from the part of the path condition selected by var_filter() (None: whole path condition)"""
+    def sqrt(x):
+        if not isinstance(x, SymReal):
+            return math.sqrt(x) if x >= 0 else NAN
+        f = var_filter()
+        cond = x.z >= 0
+        if f is None:
+            ex._defined_goal('sqrt_defined', cond, 'negative radicand')
+        else:
+            clean_goal(ex, 'sqrt_defined[loop]', Holds(cond), pc_over(ex, f), info='negative radicand')
+        ex.pc.append(cond)
+        r = z3.Real('px_' + ex._name('sqrt'))
+        ex.pc.append(z3.And(r >= 0, r * r == x.z))
+        return SymReal(r)
+    ex.sqrt = sqrt
+
+
 def fdiv(a, b):
     """concrete division with IEEE semantics for python floats"""
     try:
@@ -489,7 +507,7 @@ def cg_common_goals(ex, mod, kind, it, K, zz, tt, model, cauchy_model, res2, tol
         add_goal(ex, 'interior_means_newton_residual_below_tolerance', Lt(U(res2), U(tol2)))
 
 
-def make_cg_moment(K, routine, ratio_symbolic):
+def make_cg_moment(K, routine, ratio_symbolic, precond_ip=False):
     def fn(ex):
         install_poison_division(ex)
         mu = install_moments(ex)
@@ -498,7 +516,7 @@ def make_cg_moment(K, routine, ratio_symbolic):
         hv = lambda v: GV({k + 1: c for k, c in v.c.items()})
         tr = ex.real('trSize')
         ex.assume(tr > 0)
-        settings, cgtol, ratio = cg_settings(ex, mod, K, False, ratio_symbolic)
+        settings, cgtol, ratio = cg_settings(ex, mod, K, precond_ip, ratio_symbolic)
         hankel_psd(ex, mu, 2)
         if routine == 'solve_trust_region_minimization':
             z, cauchyP, kind, it = mod.solve_trust_region_minimization(x, GV(dict(g.c)), hv, lambda v: v, tr, settings)
@@ -575,15 +593,16 @@ MOMENT_BOUNDS = ('%s with max_cg_iters=%d in ANY dimension: Gram mode over the K
                  '[mu_{i+j}] 3x3 positive semi-definite), symmetric H definite/indefinite/singular, identity preconditioner, Euclidean inner product%s')
 
 
-def _reg_cg_moment(routine, K, ratio_symbolic, tiers, cap):
+def _reg_cg_moment(routine, K, ratio_symbolic, tiers, cap, precond_ip=False):
     short = 'cg' if routine == 'solve_trust_region_minimization' else 'subspace_cg'
     goals = CG_GOALS + (['cauchy_direction_is_minus_preconditioned_gradient'] if short == 'cg' else [])
 
-    @obligation(P, 'O3.%s_moment_form[max_cg_iters=%d%s]' % (short, K, '' if ratio_symbolic else '; ratio=0'), tiers=tiers, cap=cap)
+    @obligation(P, 'O3.%s_moment_form[max_cg_iters=%d%s%s]' % (short, K, '' if ratio_symbolic else '; ratio=0', '; recurrence inner products' if precond_ip else ''), tiers=tiers, cap=cap)
     def ob(h):
         _cg_meta(h)
-        h.bounds(MOMENT_BOUNDS % (routine, K, '' if ratio_symbolic else '; cg_inexact_solve_ratio = 0 (the threshold is then cg_tol^2, any positive real; the max(...) formula itself is covered by the max_cg_iters=1 obligation)'))
-        px.run_px(h, short, make_cg_moment(K, routine, ratio_symbolic), cap=60, sqrt_mode='goal', expect_goals=goals)
+        h.bounds(MOMENT_BOUNDS % (routine, K, ('' if ratio_symbolic else '; cg_inexact_solve_ratio = 0 (the threshold is then cg_tol^2, any positive real; the max(...) formula itself is covered by the max_cg_iters=1 obligation)')
+                                  + ('; use_preconditioned_inner_product_for_cg=True with the identity preconditioner: the step norm is tracked by the Gould et al. recurrences (cg_inner_products_preconditioned), the norm is still Euclidean' if precond_ip else '')))
+        px.run_px(h, short, make_cg_moment(K, routine, ratio_symbolic, precond_ip), cap=60, sqrt_mode='goal', expect_goals=goals)
     ob.__doc__ = ('real %s unrolled to %d iteration(s), moment form (any dimension): every exit finite, inside the region, on the boundary when reported, model '
                   'not increased, not worse than any Cauchy-direction step, true Newton residual below the tolerance on interior' % (routine, K))
     return ob
@@ -593,6 +612,7 @@ for _routine in ('solve_trust_region_minimization', 'trust_region_cg'):
     _reg_cg_moment(_routine, 1, True, ('quick', 'thorough'), 300)
     _reg_cg_moment(_routine, 2, False, ('quick', 'thorough'), 600)
     _reg_cg_moment(_routine, 2, True, ('thorough',), 900)
+_reg_cg_moment('solve_trust_region_minimization', 2, False, ('quick', 'thorough'), 600, precond_ip=True)
 
 
 def _reg_cg_component(n, K, precond_ip, precond_kind, routine, tiers, cap):
@@ -649,7 +669,12 @@ class _NPRec:
 
 def load_treigen(ex, eigh):
     rec = _NPRec()
-    lin = types.SimpleNamespace(norm=NP.linalg.norm, eigh=eigh)
+
+    def norm(w):
+        r = NP.linalg.norm(w)
+        rec.last_norm = (w, r)
+        return r
+    lin = types.SimpleNamespace(norm=norm, eigh=eigh)
     mod = px.load_module(REL_TREIGEN, shims={'optimism.JaxConfig': px.jaxconfig_shim(extra={'np': rec}), 'jax.numpy.linalg': lin})
     return mod, rec
 
@@ -830,7 +855,7 @@ def secular_certificate(ex, G, sig, Delta, xe, be, xx, qe, lam, pN, rN):
     clean_goal(ex, G('global_minimizer_over_the_ball_of_its_own_radius'), Le(U(model_e(sig, be, xe)), U(model_e(sig, be, qe))), base + lemmas + [qq <= xx])
 
 
-def make_treigen(zero_matrix=False, max_secular_iters=0, rotation=None, reflect=None, tags=TAGS, phase=None, finite_goal=True, nonzero_b=False, boundary_early=False):
+def make_treigen(zero_matrix=False, max_secular_iters=0, rotation=None, reflect=None, tags=TAGS, phase=None, finite_goal=True, nonzero_b=False, boundary_early=False, spectrum=None, only_finite=False):
     """phase None: the whole lemma chain; 1: up to and including the stationarity lemma of the hard case; 2: the goals that
     depend on that lemma (the lemma is assumed: it was proved by phase 1 of the same obligation)"""
     def fn(ex):
@@ -843,6 +868,10 @@ def make_treigen(zero_matrix=False, max_secular_iters=0, rotation=None, reflect=
             ex.assume(NP.abs(sig[0]) + NP.abs(sig[1]) > 0)
         if nonzero_b:
             ex.assume(NP.dot(b, b) > 0)
+        if spectrum == 'indefinite':
+            ex.assume(sig[0] < 0)
+        elif spectrum == 'semidefinite':
+            ex.assume(sig[0] >= 0)
         if ex.symbolic:
             def eigh(M):
                 if M is not A:
@@ -879,10 +908,10 @@ def make_treigen(zero_matrix=False, max_secular_iters=0, rotation=None, reflect=
         finite = all_finite(step)
         if finite_goal and phase != 2:
             add_goal(ex, G('step_is_finite'), Holds(finite), info='NaN/inf in the returned step (a division by zero reached it)')
-        if not finite:
-            return
         if not ex.symbolic:
             ex.note(real_module_report(A, b, Delta, sig, v))
+        if not finite or only_finite:
+            return
         DD = Delta * Delta
         # eigen-coordinates of the returned step and of b (spec side, with the contract's eigenvector matrix)
         xe = [define(ex, 'xe%d' % i, NP.dot(v[:, i], step)) for i in range(2)]
@@ -980,20 +1009,34 @@ def o4_int_sec(h):
     px.run_px(h, 'treigen', make_treigen(tags=('interior', 'secular'), max_secular_iters=0), cap=60, sqrt_mode='goal')
 
 
+@obligation(P, 'O4.treigen_hard_case_step_is_finite[symbolic eigenbasis]', cap=600)
+def o4_hard_finite(h):
+    """hard-case exit: the returned step is a finite vector (no division by zero reaches it), any eigenbasis"""
+    _treigen_meta(h)
+    h.bounds('treigen.solve n=2 hard-case exit: symbolic spectrum (not both zero), eigenbasis (rotation with/without reflection), b, Delta > 0')
+    px.run_px(h, 'hard_case', make_treigen(tags=('hard_case',), only_finite=True), cap=60, sqrt_mode='goal')
+
+
 @obligation(P, 'O4.treigen_hard_case[symbolic eigenbasis; symmetric eigenvector matrix]', cap=600)
 def o4_hard_sym(h):
     """hard-case exit with v = rotation composed with a reflection (in 2-D exactly the symmetric orthogonal matrices: the class the repo's tests use)"""
     _treigen_meta(h)
-    h.bounds('treigen.solve n=2 hard-case exit: symbolic spectrum, b, Delta; eigenvector matrix [[c, s], [s, -c]], c^2+s^2=1')
-    run_hard_case(h, reflect=True)
+    h.bounds('treigen.solve n=2 hard-case exit: symbolic spectrum, b, Delta; eigenvector matrix [[c, s], [s, -c]], c^2+s^2=1; inputs with a non-finite returned step: see O4.treigen_hard_case_step_is_finite')
+    run_hard_case(h, reflect=True, finite_goal=False)
 
 
-@obligation(P, 'O4.treigen_hard_case[symbolic eigenbasis; rotation]', cap=900)
-def o4_hard_rot(h):
-    """hard-case exit with a general (non-symmetric) eigenvector matrix v = [[c, -s], [s, c]]"""
-    _treigen_meta(h)
-    h.bounds('treigen.solve n=2 hard-case exit: symbolic spectrum, b, Delta; eigenvector matrix [[c, -s], [s, c]], c^2+s^2=1')
-    run_hard_case(h, reflect=False)
+def _reg_hard_rot(spectrum, text):
+    @obligation(P, 'O4.treigen_hard_case[symbolic eigenbasis; rotation; %s]' % text, cap=900)
+    def ob(h):
+        _treigen_meta(h)
+        h.bounds('treigen.solve n=2 hard-case exit: symbolic spectrum with %s, b, Delta; eigenvector matrix [[c, -s], [s, c]], c^2+s^2=1; inputs with a non-finite returned step: see O4.treigen_hard_case_step_is_finite' % text)
+        run_hard_case(h, reflect=False, finite_goal=False, spectrum=spectrum)
+    ob.__doc__ = 'hard-case exit with a general (non-symmetric) eigenvector matrix v = [[c, -s], [s, c]], lowest eigenvalue %s' % text
+    return ob
+
+
+_reg_hard_rot('indefinite', 'sig0 negative')
+_reg_hard_rot('semidefinite', 'sig0 nonnegative')
 
 
 ROTATIONS = {'3/5,4/5': (3, 4, 5), '-5/13,12/13': (-5, 12, 13), '4/5,-3/5': (4, -3, 5)}
@@ -1038,12 +1081,21 @@ def select_after_secular_loop(fd):
     return ast.While(test=ast.Constant(True), body=fd.body[k + 1:], orelse=[]), fd.body[:k]
 
 
+LOOP_VARS = ('sig_0', 'sig_1', 'lam', 'Delta')
+
+
+def _loop_var(n):
+    return n in LOOP_VARS or n.startswith('px_a') or n.startswith('px_quot') or n.startswith('px_sqrt')
+
+
 def make_secular(kind):
     """kind 'base': the state in which the real prefix of solve reaches the loop satisfies Inv;
     'step': Inv and the loop test => Inv after one pass of the real loop body;
     'exit': Inv and not the loop test => the real return statement yields a step with the certificate.
     Inv: lam >= 0, lam > -sig0, pNormSq = pnorm_squared(bvv, sig+lam), pNorm = sqrt(pNormSq), bError = (pNorm - Delta)/Delta, bError >= 0
-    (the last three by construction of the havoc: they are functions of lam computed with the code's own expressions)"""
+    (the last three by construction of the havoc: they are functions of lam computed with the code's own expressions).
+    In 'step'/'exit' the squared eigen-components bvv of b are re-named (fresh reals a_i equal to the code's expressions, a_i >= 0 proved),
+    so that the loop body is an expression over (a, sig, lam, Delta) only and the goals are decided from that part of the path condition."""
     def fn(ex):
         install_poison_division(ex)
         A, b, Delta, sig, v = treigen_inputs(ex)
@@ -1054,21 +1106,28 @@ def make_secular(kind):
         mod, rec = load_treigen(ex, eigh)
         step_fn, src, names = px.extract_step(mod, 'solve', select_after_secular_loop if kind == 'exit' else select_secular_loop)
         heads = []
+        in_loop = [False]
+        install_sqrt(ex, lambda: _loop_var if in_loop[0] else None)
 
         def havoc(loc):
             heads.append(dict(loc))
             if kind == 'base':
                 raise _AtLoopHead()
+            a = onp.empty(2, dtype=object if ex.symbolic else float)
+            for i in range(2):
+                a[i] = define(ex, 'a%d' % i, loc['bvv'][i])
+                cut(ex, '%s:squared_component_is_nonnegative' % kind, Le(0.0, U(a[i])))
+            in_loop[0] = True
             lam = ex.real('lam')
             ex.assume(lam >= 0)
             ex.assume(lam + sig[0] > 0)
-            pN = mod.pnorm_squared(loc['bvv'], sig + lam)
+            pN = mod.pnorm_squared(a, sig + lam)
             pNorm = rec.sqrt(pN)
             bE = (pNorm - Delta) / Delta
             ex.assume(bE >= 0)
             ex.assume(NP.abs(bE) > 1e-9 if kind == 'step' else NP.abs(bE) <= 1e-9)
-            heads[-1].update(lam=lam, pNormSq=pN, pNorm=pNorm, bError=bE)
-            return dict(lam=lam, pNormSq=pN, pNorm=pNorm, bError=bE)
+            heads[-1].update(lam=lam, pNormSq=pN, pNorm=pNorm, bError=bE, bvv=a)
+            return dict(lam=lam, pNormSq=pN, pNorm=pNorm, bError=bE, bvv=a)
         try:
             with onp.errstate(all='ignore'):
                 k, val, loc = step_fn({}, havoc, A, b.copy(), Delta)
@@ -1077,20 +1136,40 @@ def make_secular(kind):
         if not heads:
             raise px.PathAbort('other shard')       # the prefix returned (interior / hard case): not a loop path
         head = heads[0]
+        base = [sig[0] <= sig[1], Delta > 0]
         if kind == 'base':
             lam, pN, pNorm, bE = head['lam'], head['pNormSq'], head['pNorm'], head['bError']
             if not all_finite([lam, pN, pNorm, bE]):
                 raise px.PathAbort('other shard')
             add_goal(ex, 'base:shift_is_nonnegative', Le(0.0, U(lam)))
             add_goal(ex, 'base:shifted_matrix_is_positive_definite', Lt(U(-sig[0]), U(lam)))
-            add_goal(ex, 'base:left_of_the_root', Le(0.0, U(bE)), info='the loop is entered with |p(lam)| < Delta')
+            # left of the root: the last norm(...) < Delta test of the prefix failed on w = bv/(sig+lam); chain of re-statements in named variables
+            w, nrm = rec.last_norm
+            lem = []
+
+            def lemma(name, atom):
+                cut(ex, 'base:' + name, atom)
+                lem.append(holds(atom) if ex.symbolic else True)
+            B = [define(ex, 'B%d' % i, head['bv'][i]) for i in range(2)]
+            T = [define(ex, 'T%d' % i, sig[i] + lam) for i in range(2)]
+            W = [define(ex, 'W%d' % i, w[i]) for i in range(2)]
+            n_, pN_, r_, e_ = define(ex, 'n', nrm), define(ex, 'pN', pN), define(ex, 'r', pNorm), define(ex, 'e', bE)
+            lemma('last_norm_argument_is_bv_over_shifted_spectrum', Eq(U([W[i] * T[i] - B[i] for i in range(2)]), 0.0))
+            lemma('shifted_spectrum_is_positive', Lt(0.0, U(T)))
+            lemma('secular_norm_squared_in_polynomial_form', Eq(U(pN_ * T[0] * T[0] * T[1] * T[1]), U(B[0] * B[0] * T[1] * T[1] + B[1] * B[1] * T[0] * T[0])))
+            lemma('last_norm_is_the_euclidean_norm', Holds(z3.And(U(n_) >= 0, U(n_ * n_) == U(W[0] * W[0] + W[1] * W[1]))) if ex.symbolic else Eq(n_ * n_, W[0] * W[0] + W[1] * W[1]))
+            lemma('last_norm_test_failed', Le(U(Delta), U(n_)))
+            lemma('secular_norm_is_a_nonnegative_root', Holds(z3.And(U(r_) >= 0, U(r_ * r_) == U(pN_))) if ex.symbolic else Eq(r_ * r_, pN_))
+            lemma('boundary_error_definition', Eq(U(e_ * Delta), U(r_ - Delta)))
+            clean_goal(ex, 'base:left_of_the_root', Le(0.0, U(e_)), base + lem, info='the loop is entered with |p(lam)| < Delta')
         elif kind == 'step':
             lam, bE = loc['lam'], loc['bError']
             finite = all_finite([lam, loc['pNormSq'], loc['pNorm'], bE])
-            add_goal(ex, 'step:loop_state_stays_finite', Holds(finite))
+            small = pc_over(ex, _loop_var) if ex.symbolic else []
+            clean_goal(ex, 'step:loop_state_stays_finite', Holds(finite), small)
             if finite:
-                add_goal(ex, 'step:shift_does_not_decrease', Le(U(head['lam']), U(lam)))
-                add_goal(ex, 'step:stays_left_of_the_root', Le(0.0, U(bE)), info='Newton on the secular equation from the left of the root must not overshoot (concavity)')
+                clean_goal(ex, 'step:shift_does_not_decrease', Le(U(head['lam']), U(lam)), small)
+                clean_goal(ex, 'step:stays_left_of_the_root', Le(0.0, U(bE)), small, info='Newton on the secular equation from the left of the root must not overshoot (concavity)')
         else:
             stepv = onp.asarray(val, dtype=object if ex.symbolic else float).reshape(-1)
             G = lambda name: 'exit:%s' % name
@@ -1101,9 +1180,30 @@ def make_secular(kind):
             be = [define(ex, 'be%d' % i, NP.dot(v[:, i], b)) for i in range(2)]
             xx = xe[0] * xe[0] + xe[1] * xe[1]
             cut(ex, G('eigen_coordinates_preserve_norm'), Eq(U(NP.dot(stepv, stepv)), U(xx)))
+            cut(ex, G('renamed_components_are_the_squares'), Eq(U([head['bvv'][i] - be[i] * be[i] for i in range(2)]), 0.0))
             secular_certificate(ex, G, sig, Delta, xe, be, xx, ex.vec('qe', 2), head['lam'], head['pNormSq'], head['pNorm'])
     return fn
 
 
 class _AtLoopHead(Exception):
     pass
+
+
+def _reg_secular(kind, doc):
+    @obligation(P, 'O4.treigen_secular_loop_%s' % kind, cap=600)
+    def ob(h):
+        _treigen_meta(h)
+        h.encoded('optimism.treigen.treigen:solve (%s)' % {'base': 'statements before the while loop, real source', 'step': 'body of the while loop, extracted by AST from the current source',
+                                                               'exit': 'return statement after the while loop, extracted by AST from the current source'}[kind])
+        h.bounds('treigen.solve n=2, symbolic eigenbasis (rotation with/without reflection), spectrum (not both zero), b, Delta > 0; loop-head state: ANY lam satisfying the invariant '
+                 'Inv = (lam >= 0, lam > -sig0, pNormSq/pNorm/bError consistent with lam, bError >= 0), reachable or not')
+        h.assume_note('1-induction over the secular while loop: base (prefix establishes Inv), step (Inv and loop test => Inv after one real body), exit (Inv and not loop test => the real return value is '
+                      'stationary for a shift lam >= max(0,-sig0), has norm within 1e-9 of Delta and is a global minimiser over the ball of its own radius); termination is outside the claim')
+        px.run_px(h, kind, make_secular(kind), cap=60, sqrt_mode='goal')
+    ob.__doc__ = doc
+    return ob
+
+
+_reg_secular('base', 'the real statements of treigen.solve before the secular loop establish the loop invariant (lam >= 0, lam > -sig0, |p(lam)| >= Delta)')
+_reg_secular('step', 'one pass of the real loop body from any state satisfying the invariant and the loop test re-establishes the invariant (Newton on the secular equation does not overshoot)')
+_reg_secular('exit', 'from any state satisfying the invariant and the negated loop test the real return statement yields a certified global minimiser (norm within 1e-9 of the radius)')
